@@ -1,6 +1,7 @@
 package c05
 
 import (
+	"strings"
 	"testing"
 
 	"pgregory.net/rapid"
@@ -15,13 +16,15 @@ var propCounts = map[string][2]int{
 	"TestPropMutateGeoJSON": {14000, 900000},
 	"TestPropMutateBSON":    {14000, 900000},
 	"TestPropMutateMVT":     {20000, 1500000},
+	"TestPropDeepChains":    {2400, 90000},
+	"TestPropLongFlat":      {1000, 60000},
 }
 
 func assumptions() {
 	stats.Assume("inputs are at most 64 KiB (the per-call watchdog and the len^2 terms of the allocation bounds are calibrated for that size); larger inputs are not explored")
-	stats.Assume("allocation is observed as the runtime.MemStats.TotalAlloc delta around one decoder call (cumulative bytes, not peak); bound per decoder group: A*len + len^2/Q + B, table `limits` in c05_test.go; every call is screened with runtime/metrics /gc/heap/allocs:bytes (exact for objects > 32 KiB, may under-read smaller objects by the unfilled part of one span per size class: measured <= 50 KiB, theoretical < 2 MiB); a call whose screen exceeds bound - 256 KiB, and every 32nd call, is re-run under ReadMemStats and fails only if the minimum of three exact measurements exceeds the bound")
+	stats.Assume("allocation is observed as the runtime.MemStats.TotalAlloc delta around one decoder call (cumulative bytes, not peak); bound PER TARGET: A*len + Q*len^2 + E*expanded + 1 MiB with the table of limits_test.go, measured on the unchanged tree and widened 4x (see rule); every call is screened with runtime/metrics /gc/heap/allocs:bytes (exact for objects > 32 KiB; for smaller objects it can lag by the unfilled part of one span per size class); a call whose screen exceeds bound - 256 KiB, and every 32nd call, is re-run under ReadMemStats and fails only if the minimum of three exact measurements exceeds the bound")
 	stats.Assume("'never loops forever' is approximated by a watchdog per decoder call: 10 s of process CPU time while the call is in flight, or a 15 min wall safety net (wall time alone is unsound on the shared, oversubscribed machine)")
-	stats.Assume("cumulative allocation that grows with the SQUARE of the nesting depth is tolerated through the stated len^2/Q term (peak memory stays linear): wkb.Unmarshal / Scan* re-scan one-member multi-* chains from every level (63 KB chain: 589 MB cumulative, 2.7 s), nested GeoJSON geometry collections rebuild Geometry() at every level (63 KB, depth 1400: 93 MB, 0.9 s), the BSON driver copies every embedded document once per level; the generators nest to depth 200 only, so neither the time nor the len^2 term is approached")
+	stats.Assume("cumulative allocation that grows with the SQUARE of the nesting depth is tolerated through a Q*len^2 term ONLY for the targets where the unchanged tree is quadratic (peak memory stays linear): wkb.Unmarshal / Scan* re-scan one-member multi-* chains from every level (63 KB chain: 589 MB cumulative, 2.7 s), nested GeoJSON geometry collections rebuild Geometry() at every level (63 KB, depth 1400: 93 MB, 0.9 s), the BSON driver copies every embedded document once per level; these shapes are generated to depth 600 (WKB), 400 (GeoJSON) and 300 (BSON) only because of their quadratic time; linear chains (collections, truncated multi-*) are generated to depth len/9 = 7281")
 	stats.Assume("unbounded recursion depth is outside the explored domain: 54 MB of nested WKB collections (6 million levels) end in a fatal stack overflow of the stream decoder")
 	stats.Assume("BSON is driven through orb's own UnmarshalBSON methods; bson.Unmarshal(data, &geojson.X{}) is the driver's front door and copies the top-level document with an unchecked length before any orb code runs")
 	stats.Assume("stream decoders are driven with a bytes.Reader until the first error; scanners get []byte values only (other driver value types are rejected by a type assertion before any decoding)")
@@ -29,19 +32,47 @@ func assumptions() {
 	stats.Assume("WKB stability is checked for wkb/ewkb Unmarshal and for the first geometry of each stream decoder, with the default (little endian) byte order of Marshal")
 }
 
+// isQuad tags (for calibration only) the input shapes on which the UNCHANGED tree allocates
+// quadratically in the nesting depth: WKB multi-* chains that end in a valid leaf (re-scanned
+// through the typed Scan* functions) and any nesting of GeoJSON / BSON / WKT collections.
+func isQuad(family, how string) bool {
+	deep := strings.Contains(how, "nest") || strings.Contains(how, "chain") || strings.Contains(how, "depth")
+	if !deep {
+		return false
+	}
+	switch family {
+	case "wkb":
+		if strings.Contains(how, "nest-multi") || strings.Contains(how, "re-scanned") || strings.Contains(how, "multi-line chain") ||
+			strings.Contains(how, "multi-point chain") || strings.Contains(how, "multi-polygon chain") {
+			return true
+		}
+		return strings.Contains(how, "chain multi") && strings.Contains(how, "leaf valid")
+	case "mvt":
+		return false
+	}
+	return true
+}
+
 func runProp(t *testing.T, family string, g func(*rapid.T) ([]byte, string)) {
+	runPropF(t, func(rt *rapid.T) (string, []byte, string) {
+		data, how := g(rt)
+		return family, data, how
+	})
+}
+
+func runPropF(t *testing.T, g func(*rapid.T) (string, []byte, string)) {
 	name := t.Name()
 	assumptions()
 	n := propCounts[name]
 	defer inFlightDone()
 	stats.Check(t, n[0], n[1], func(rt *rapid.T) {
-		data, how := g(rt)
+		family, data, how := g(rt)
 		c := newCase(family, data, how)
 		var out outcome
 		inFlight(name, c)
 		stats.Try(rt, name, c, func() error {
 			var err error
-			out, err = checkData(family, data, evalOpts{measure: true})
+			out, err = checkData(family, data, evalOpts{measure: true, deep: isQuad(family, how)})
 			return err
 		})
 		for _, why := range out.skipWhy {
@@ -61,3 +92,32 @@ func TestPropMutateWKT(t *testing.T)     { runProp(t, "wkt", genWKT) }
 func TestPropMutateGeoJSON(t *testing.T) { runProp(t, "geojson", genGeoJSON) }
 func TestPropMutateBSON(t *testing.T)    { runProp(t, "bson", genBSON) }
 func TestPropMutateMVT(t *testing.T)     { runProp(t, "mvt", genMVT) }
+
+// TestPropDeepChains: chains of nested containers of depth up to len/9 (WKB; half of the cases)
+// and the corresponding nestings of the other codecs.
+func TestPropDeepChains(t *testing.T) {
+	runPropF(t, func(rt *rapid.T) (string, []byte, string) {
+		fam := rapid.SampledFrom([]string{"wkb", "wkb", "wkb", "wkb", "wkt", "geojson", "bson", "mvt"}).Draw(rt, "family")
+		var (
+			data []byte
+			how  string
+		)
+		switch fam {
+		case "wkb":
+			data, how = genChainWKB(rt)
+		case "wkt":
+			data, how = genChainWKT(rt)
+		case "geojson":
+			data, how = genChainGeoJSON(rt)
+		case "bson":
+			data, how = genChainBSON(rt)
+		default:
+			data, how = genChainMVT(rt)
+		}
+		return fam, data, how
+	})
+}
+
+// TestPropLongFlat: long (1-60 KiB) valid encodings with many points or many small members, at
+// most one byte-level mutation: the linear coefficient of every decoder's allocation.
+func TestPropLongFlat(t *testing.T) { runPropF(t, genLong) }
